@@ -33,7 +33,11 @@ var extraProfs = []regProf{
 	{OwnTagName, P2, "x-profile", "*checks.OwnTagClaims", ownTagProfile{}},
 }
 
-var c07Names = []string{P1Name, P2Name, ExtP2Name, ExtP1Name, OwnTagName, "http://example.com/unknown", "PSA_IOT_PROFILE_2", "psa_iot_profile_1", "http://arm.com/psa/2.0.0/", "http://ARM.com/psa/2.0.0", "1.2.3.4"}
+var c07Names = []string{P1Name, P2Name, ExtP2Name, ExtP1Name, OwnTagName, "http://example.com/unknown", "PSA_IOT_PROFILE_2", "psa_iot_profile_1", "http://arm.com/psa/2.0.0/", "http://ARM.com/psa/2.0.0", "1.2.3.4",
+	// spellings that URL / string normalisation would map onto a registered name
+	"HTTP://arm.com/psa/2.0.0", "http://arm.com/psa/2.0.0#", "http://arm.com/psa/2.0.0?", "http://arm.com:80/psa/2.0.0", "http://arm.com/psa/./2.0.0",
+	"http://arm.com/psa/2.0.0 ", " http://arm.com/psa/2.0.0", "http://arm.com/psa/2.0.0\x00", "http://arm.com/psa/2%2E0.0", "PSA_IOT_PROFILE_1 ", "PSA_IOT_PROFILE_1\n",
+	"HTTP://example.com/verif/ext-on-p2", "http://example.com/verif/ext-on-p2#"}
 
 type slotVal struct {
 	Kind string `json:"kind"` // absent | null | undefined | empty | name | nontext
@@ -497,7 +501,7 @@ func drawSlot(t *rapid.T, label string, kinds []string) slotVal {
 }
 
 func TestC07_Dispatch(t *testing.T) {
-	st := NewStats("C07", "TestC07_Dispatch", "rapid: a body of profile-1 or profile-2 claims (valid, or with 1..2 rule deviations) in CBOR (independent encoder; optionally with the other profile's complete body mixed in) or JSON (harness's own writer), combined with every class of profile claim under each profile's key/member (-75000 / 265, psa-profile / eat-profile / x-profile): absent, null, undefined, empty, non-text, one of 11 names (the two built-ins, three extension names, look-alikes, unknown URIs), under one key or both; with every subset of three extra profiles registered through the checkpoint hook (an extension of profile 2 sharing eat-profile, an extension of profile 1 sharing psa-profile, one with its own JSON member). Oracle: reference dispatcher (CBOR: key 265 absent -> profile 1, registered name -> that profile, other text -> error; JSON: exactly one registered name matched -> it, a present non-null profile member matching nothing or two profiles matched -> error, none present -> profile 1); result type = selected profile's; decode-and-validate succeeds iff the token is valid under THAT profile's rules (independent model, cross-read member names); accepted token reports the declared name and the wire values; NewClaims(p) reports p for every registered p and fails otherwise. Key 265 holding ''/null/undefined/non-text or the profile-1 name: error or identical to the token without it. Non-trivial = profile claim not simply present-and-matching with nothing else registered; distinct = format + slots + registered set + validity class")
+	st := NewStats("C07", "TestC07_Dispatch", "rapid: a body of profile-1 or profile-2 claims (valid, or with 1..2 rule deviations) in CBOR (independent encoder; optionally with the other profile's complete body mixed in) or JSON (harness's own writer), combined with every class of profile claim under each profile's key/member (-75000 / 265, psa-profile / eat-profile / x-profile): absent, null, undefined, empty, non-text, one of 24 names (the two built-ins, three extension names, unknown URIs, and look-alikes that case / URL / whitespace normalisation would map onto a registered name), under one key or both; with every subset of three extra profiles registered through the checkpoint hook (an extension of profile 2 sharing eat-profile, an extension of profile 1 sharing psa-profile, one with its own JSON member). Oracle: reference dispatcher (CBOR: key 265 absent -> profile 1, registered name -> that profile, other text -> error; JSON: exactly one registered name matched -> it, a present non-null profile member matching nothing or two profiles matched -> error, none present -> profile 1); result type = selected profile's; decode-and-validate succeeds iff the token is valid under THAT profile's rules (independent model, cross-read member names); accepted token reports the declared name and the wire values; NewClaims(p) reports p for every registered p and fails otherwise. Key 265 holding ''/null/undefined/non-text or the profile-1 name: error or identical to the token without it. Non-trivial = profile claim not simply present-and-matching with nothing else registered; distinct = format + slots + registered set + validity class")
 	st.Require = []string{"cbor", "json", "expect=error", "expect=soft", "expect=selected-valid", "expect=selected-invalid", "sel=default", "sel=extension", "reg=0", "reg>0", "both-keys", "cross-profile"}
 	defer st.Flush(t)
 	registerMu.Lock()
@@ -544,7 +548,7 @@ func TestC07_Dispatch(t *testing.T) {
 		textKinds := []string{"absent", "absent", "name", "name", "name", "empty", "null", "nontext"}
 		if c.Format == "cbor" {
 			c.S1 = drawSlot(t, "s1", []string{"absent", "absent", "name", "empty"})
-			c.S2 = drawSlot(t, "s2", append(textKinds, "undefined"))
+			c.S2 = drawSlot(t, "s2", append(textKinds, "undefined", "name", "name"))
 		} else {
 			c.S1 = drawSlot(t, "s1", textKinds)
 			c.S2 = drawSlot(t, "s2", textKinds)
